@@ -2,7 +2,7 @@ import random
 from typing import Any, List, Optional, Tuple, TypeVar
 
 from scapy.layers.inet import IPOption_NOP
-from scapy.packet import NoPayload, Raw
+from scapy.packet import NoPayload, Padding, Raw
 
 from pyp0f.database import Database
 from pyp0f.database.parse.utils import WILDCARD
@@ -318,18 +318,21 @@ def _impersonate_tcp(
 
 
 def _impersonate_payload(tcp: ScapyTCP, signature: TCPSignature) -> ScapyPacket:
+    payload = tcp.payload
+
+    # Link-layer padding after the IP datagram (a sniffed, padded Ethernet frame)
+    # is not TCP payload.
+    if isinstance(payload, Padding):
+        payload = NoPayload()
+
     if signature.payload_class == WILDCARD:  # Any payload, return existing payload
-        return tcp.payload
+        return payload
 
     if not signature.payload_class:  # Must remove existing payload
         return NoPayload()
 
     # Must have payload, generate random or return existing.
-    return (
-        tcp.payload
-        if tcp.payload
-        else Raw(load=random_string(size=random.randint(1, 10)))
-    )
+    return payload if payload else Raw(load=random_string(size=random.randint(1, 10)))
 
 
 def impersonate(
